@@ -88,4 +88,50 @@ def c08(c):
     return c.finish()
 
 
-CHECKS = {"C01": c01, "C02": c02, "C03": c03, "C04": c04, "C05": c05, "C07": c07, "C08": c08}
+FT = dict(module="FieldTrace.tla", cfg="cfg/FieldTrace.cfg")
+
+
+def c10(c):
+    build_both()
+    for b in ("ark", "min"):
+        for f in ("Fq", "Fr", "Fp"):
+            c.trace(b, "farith_" + f, scale(c.tier, 3000, 120000), **FT)
+        c.trace(b, "fqextra", scale(c.tier, 300, 6000), **FT)
+    return c.finish(rule="distinct (build, event kind, field-less call form) combinations in validated field-arithmetic events")
+
+
+def c11(c):
+    build_both()
+    for b in ("ark", "min"):
+        for f in ("Fq", "Fr", "Fp"):
+            c.trace(b, "fconv_" + f, scale(c.tier, 1500, 60000), **FT)
+    return c.finish()
+
+
+def sqrt_cfgs(tier):
+    idx = open(os.path.join(SPEC, "cfg", "INDEX")).read().split()
+    out = []
+    for name in idx:
+        m = re.match(r"MC_Sqrt_p(\d+)_w(\d+)_(\w+)\.cfg", name)
+        if m and (tier == "thorough" or int(m.group(1)) <= 257):
+            out.append(("MC_Sqrt.tla", "cfg/" + name))
+    return out
+
+
+def c09(c):
+    build_both()
+    c.mc(sqrt_cfgs(c.tier), par=2)
+    plan, n = gen_plan("SqrtPlan.tla", "cfg/SqrtPlan.cfg", "sqrt")
+    c.notes.append("SqrtPlan: TLC generated %d input pairs by 2-primary component (every value of every table digit window)" % n)
+    c.exhaustive_parts.append("every value of each of the 16 table-digit windows of the discrete log (others zero), both polarities, x3 presentations")
+    for b in ("ark", "min"):
+        c.trace(b, "sqrtfile", 0, plan)
+        c.trace(b, "sqrtrand", scale(c.tier, 3000, 150000))
+        for i in range(scale(c.tier, 2, 10)):
+            c.trace(b, "sqrtrace", 0, sd=seed() * 1000 + i)
+    for f in ("Fq", "Fr", "Fp"):
+        c.trace("ark", "fsqrt_" + f, scale(c.tier, 600, 20000), **FT)
+    return c.finish()
+
+
+CHECKS = {"C09": c09, "C10": c10, "C11": c11, "C01": c01, "C02": c02, "C03": c03, "C04": c04, "C05": c05, "C07": c07, "C08": c08}
